@@ -19,7 +19,7 @@ CLAUSE = ('every pavex_bp_schema type serialises each declared field/variant unc
           'Blueprint::persist and the compiler use the same schema type with ron; the runtime->schema conversion tables preserve variant '
           'names and fields; components are only appended; RoutingModifiers builders keep every field and nest() moves prefix and domain '
           'into the nested entry; the compiler matches Component exhaustively; every key an attribute macro emits is a field of the '
-          'matching parser struct, is governed only by its like-named input, and kind names agree between writer and reader.')
+          'matching parser struct, is governed only by its like-named input, and kind names agree between writer and reader. Strings reach schema values through identity conversions only; nothing between an item\'s attribute list and pavexc_attr_parser::parse truncates or picks by position.')
 TRUSTED = ['serde derive + ron round-trip a value whose Serialize and Deserialize impls agree on names', 'darling::FromMeta maps keys to like-named fields']
 
 SC = 'pavex_bp_schema'
